@@ -27,8 +27,8 @@ RULE_TEXT = 'one obligation per action-bearing rule x results name (available / 
 ASSUMPTIONS = ['pyparsing 3.3 combinator semantics as modelled in sa/grammar.py (copy vs in-place, results names, saveAsList)',
                'decides necessary structural conditions; equality of whole models for every document and spelling is not decided',
                '`+` versus `-` (ErrorStop) changes are not judged']
-ENGINES = ['pyindex', 'grammar', 'paths']
-TECHNIQUE = 'static analysis (ast): abstract evaluation of the grammar into an IR; results-name flow and value-shape analysis between grammar and parse actions; field-flow chain action -> blueprint -> model; dispatch/wiring tables; FIRST/shadowing/multiplicity rules on the IR'
+ENGINES = ['pyindex', 'grammar', 'paths', 'specialise']
+TECHNIQUE = 'static analysis (ast): abstract evaluation of the grammar into an IR; results-name flow and value-shape analysis between grammar and parse actions; field-flow chain action -> blueprint -> model; dispatch/wiring tables; FIRST/shadowing/multiplicity rules on the IR; parse_blueprint and Database.add specialised per class (typed inlining, isinstance folding) to read what is stored where'
 
 INTERNAL_NAMES = {'_skipped', '_original_start', '_original_end'}
 # name a rule can produce but its action deliberately ignores: (action, name) -> reason
